@@ -23,7 +23,7 @@ func init() {
 				"NOT decided: bytes forwarded in order and unaltered; the numeric bound burst + rate x t (ticker timing); all chunkings.",
 			RuleText:    "one obligation per per-request setting, per validation comparison, per trailer store, per ordering step of the reset path, per token-bucket guard/constant",
 			Assumptions: trusted,
-			MinObs:      30,
+			MinObs:      26,
 		},
 		Run: runC17,
 	})
